@@ -664,6 +664,7 @@ fn replay(path: &std::path::Path, mut report: Report) -> i32 {
         let mut map: BTreeMap<u32, u32> = BTreeMap::new();
         let mut bad = None;
         for (i, e) in evs.iter().enumerate() {
+            shard.eval();
             if e["op"] == "lock" {
                 let mut nb = [0u8; 30];
                 nb.copy_from_slice(&unhex(e["node"].as_str().unwrap()));
